@@ -6,7 +6,13 @@ import math
 
 import numpy as np
 
+import functools
+
+import grid.onedgrid as _og
+from grid.basegrid import OneDGrid as _OneDGrid
+
 from gridrv import instrument
+from gridrv.monitors import roundtrip
 from gridrv.oracles import quadrature_ref as qref
 
 PROP = "C01"
@@ -50,8 +56,8 @@ BASE_SIZES_LARGE_THOROUGH = [600, 601, 702, 703, 704, 705, 801, 1000, 1001, 1500
 ALPHAS = [-0.9, -0.5, 0, 0.5, 1, 2, 3.7, 10]
 LAGUERRE_NMAX = 150
 
-REQUIRED_HOOKS = ["OneDGrid.__init__", "Grid.integrate", "plain-OneDGrid"] + [f"spelling:{s}" for s in ("int", "int64", "int32", "float64", "float32", "array0d")] + [f"decided:{c}" for c in ALL_RULES]
-REQUIRED_FAMILIES = ["gauss", "interpolatory", "closed-form", "substitution", "trefethen-poly", "trefethen-strip", "random-params", "pinned-fejer2", "incidental", "general-bases", "large-n-strip", "param-spellings"]
+REQUIRED_HOOKS = ["OneDGrid.__init__", "Grid.integrate", "plain-OneDGrid", "asymmetric-user-base"] + [f"clone:{k}" for k in roundtrip.KINDS] + [f"spelling:{s}" for s in ("int", "int64", "int32", "float64", "float32", "array0d")] + [f"decided:{c}" for c in ALL_RULES]
+REQUIRED_FAMILIES = ["gauss", "interpolatory", "closed-form", "substitution", "trefethen-poly", "trefethen-strip", "random-params", "pinned-fejer2", "incidental", "general-bases", "large-n-strip", "param-spellings", "user-bases"]
 BUDGET = {"quick": 400, "thorough": 3000}
 TOL_GRAM = 1e-9
 TOL_DEF = 1e-9
@@ -109,6 +115,84 @@ NT = list(range(2, 401))
 PINNED_FEJER2 = [2, 3, 10, 11]
 
 _state = {"mode": "decide"}
+
+
+# ------------------------------------------------------------------ user-defined base rules for the General maps
+# The `quadrature` argument of TrefethenGeneral / TrefethenStripGeneral is "a general one-dimensional grid" class: any OneDGrid
+# subclass constructible from npoints.  These have nodes on [-1,1] that are NOT symmetric about 0 and their own weights; the maps'
+# definition (nodes g(x_i), weights w_i g'(x_i)) applies to them as to any built-in rule.
+class UserShiftedGaussLegendre(_OneDGrid):
+    """Gauss-Legendre squeezed/shifted onto [-0.7, 0.95]."""
+
+    def __init__(self, npoints):
+        x, w = np.polynomial.legendre.leggauss(int(npoints))
+        super().__init__(0.825 * x + 0.125, 0.825 * w, (-1, 1))
+
+
+class UserGaussRadau(_OneDGrid):
+    """Gauss-Radau (Legendre weight, fixed node -1) with interpolatory weights."""
+
+    def __init__(self, npoints):
+        from scipy.special import roots_jacobi
+
+        n = int(npoints)
+        x = np.concatenate(([-1.0], np.sort(roots_jacobi(n - 1, 0.0, 1.0)[0]))) if n > 1 else np.array([-1.0])
+        rhs = np.zeros(n)
+        rhs[0] = 2.0
+        w = np.linalg.solve(np.polynomial.legendre.legvander(x, n - 1).T, rhs)
+        super().__init__(x, w, (-1, 1))
+
+
+class UserGradedOneSided(_OneDGrid):
+    """Both end points, nodes graded towards -1 (unequal spacing), trapezoid weights on those nodes."""
+
+    def __init__(self, npoints):
+        n = int(npoints)
+        x = -1.0 + 2.0 * (np.arange(n) / (n - 1.0)) ** 2.5
+        x[-1] = 1.0
+        w = np.zeros(n)
+        w[:-1] += 0.5 * np.diff(x)
+        w[1:] += 0.5 * np.diff(x)
+        super().__init__(x, w, (-1, 1))
+
+
+class UserScatteredNodes(_OneDGrid):
+    """Irregular nodes (fixed pseudo-random set per size) with positive, unrelated weights."""
+
+    def __init__(self, npoints):
+        n = int(npoints)
+        r = np.random.default_rng([20260926, n])
+        x = np.sort(r.uniform(-0.999, 0.97, n))
+        super().__init__(x, r.uniform(0.2, 1.8, n) / n, (-1, 1))
+
+
+class UserTanhSinhDelta(_og.TanhSinh):
+    """Built-in rule with a non-default extra parameter (the API builds quadrature(npoints) only)."""
+
+    def __init__(self, npoints):
+        super().__init__(npoints, 0.3)
+
+
+class UserSingleTanhStep(_og.SingleTanh):
+    def __init__(self, npoints):
+        super().__init__(npoints, h=0.05)
+
+
+class UserTrefethenCCd5(_og.TrefethenCC):
+    def __init__(self, npoints):
+        super().__init__(npoints, d=5)
+
+
+class UserStripGC2Rho(_og.TrefethenStripGC2):
+    def __init__(self, npoints):
+        super().__init__(npoints, rho=1.7)
+
+
+USER_BASES = {c.__name__: c for c in (UserShiftedGaussLegendre, UserGaussRadau, UserGradedOneSided, UserScatteredNodes, UserTanhSinhDelta, UserSingleTanhStep, UserTrefethenCCd5, UserStripGC2Rho)}
+USER_BASES["partial(TanhSinh,delta=0.25)"] = functools.partial(_og.TanhSinh, delta=0.25)  # a callable, not a class: TrefethenStripGeneral only
+USER_ODD_ONLY = {"UserTanhSinhDelta", "UserSingleTanhStep", "partial(TanhSinh,delta=0.25)"}
+USER_ASYMMETRIC = ["UserShiftedGaussLegendre", "UserGaussRadau", "UserGradedOneSided", "UserScatteredNodes"]
+USER_SIZES = {"quick": [2, 3, 4, 7, 8, 15, 16, 33, 64, 101], "thorough": [2, 3, 4, 5, 6, 7, 8, 9, 15, 16, 21, 33, 40, 64, 65, 101, 128, 201]}
 
 
 # ------------------------------------------------------------------ case generation
@@ -237,6 +321,16 @@ def cases(tier, seed):
                     out.append(("large-n-strip", {"cls": c, "n": n, "k": k}, n * 3e-4 + 0.01))
             else:
                 out.append(("large-n-strip", {"cls": c, "n": n, "d": 9}, n * 1e-4 + 0.01))
+    for b in USER_BASES:
+        for n in USER_SIZES[tier]:
+            if (b in USER_ODD_ONLY and (n % 2 == 0 or n < 3)) or (b == "UserGaussRadau" and n > 65):
+                continue
+            if not b.startswith("partial"):
+                for d in (1, 5, 9):
+                    out.append(("user-bases", {"cls": "TrefethenGeneral", "n": n, "d": d, "base": b}, n * 1e-4 + 0.01))
+            out.append(("user-bases", {"cls": "TrefethenStripGeneral", "n": n, "rho": "default", "base": b}, n * 3e-4 + 0.01))
+            for k in range(nrand + 1):
+                out.append(("user-bases", {"cls": "TrefethenStripGeneral", "n": n, "k": k, "base": b}, n * 3e-4 + 0.01))
     out += _spelling_cases(tier)
     for n in PINNED_FEJER2:  # witnesses of the open finding: run first, never skipped
         out.append(("pinned-fejer2", {"cls": "FejerSecond", "n": n}, 1e9))
@@ -334,7 +428,7 @@ def setup(ctx):
 def _cls(name):
     import grid.onedgrid as og
 
-    return getattr(og, name)
+    return USER_BASES[name] if name in USER_BASES else getattr(og, name)
 
 
 def _degree_sig(Dp, n, how):
@@ -357,7 +451,13 @@ def _rel(lib, ref):
     return (float(e[i]) if e.size else 0.0), i
 
 
-def _check_def(ctx, name, g, xr, wr, params, band=None, tol=TOL_DEF, suffix="", s_base=None):
+def _check_def(ctx, name, g, xr, wr, params, **kw):
+    """Definition oracle on the constructed rule AND on copies of it (copy / deepcopy / pickle round trips)."""
+    for o in _objects(ctx, name, g):
+        _check_def_one(ctx, name, o, xr, wr, params, **kw)
+
+
+def _check_def_one(ctx, name, g, xr, wr, params, band=None, tol=TOL_DEF, suffix="", s_base=None):
     """Definition oracle at EVERY node. ``band`` (strip maps only): nodes with 0 < 1-|s| <= END_BAND, decided by their own
     clause with a pure relative tolerance (end-point limit of the derivative admitted there)."""
     ex, ix = _rel(g.points, xr)
@@ -417,7 +517,13 @@ def _dev_sig(lib, ref, tol=TOL_DEF):
     return f"{where}-nodes:mismatch"
 
 
-def _gram(ctx, name, g, n, alpha=0.0, tol=TOL_GRAM, suffix=""):
+def _gram(ctx, name, g, n, alpha=0.0, **kw):
+    """Exactness oracle on the constructed rule AND on copies of it."""
+    for o in _objects(ctx, name, g):
+        _gram_one(ctx, name, o, n, alpha, **kw)
+
+
+def _gram_one(ctx, name, g, n, alpha=0.0, tol=TOL_GRAM, suffix=""):
     kind, Dfun, how = POLY[name]
     D = Dfun(n)
     err, K = qref.exact_degree_profile(kind, g.points, g.weights, D, alpha)
@@ -453,6 +559,40 @@ def _gram(ctx, name, g, n, alpha=0.0, tol=TOL_GRAM, suffix=""):
     if xd is not None:
         e, i = _rel(g.points, xd)
         ctx.check("nodes-as-defined", name, e, TOL_DEF, sig=_dev_sig(g.points, xd), detail={"n": n, "i": i, "lib": _at(g.points, i), "ref": _at(xd, i)})
+
+
+CLONE_ATTRS = ("type", "size", "domain", "nodes", "weights")
+
+
+def _objects(ctx, name, g):
+    """The rule itself, then two of its copies (kinds drawn by the case generator out of copy.copy, copy.deepcopy, pickle
+    protocol default / 2).  A copy is still "the rule built with these arguments": it must be identical to the original
+    (type, size, domain, nodes and weights bit for bit) and is handed to the same oracle as the original."""
+    yield g
+    for kind in roundtrip.pick(ctx.rng, 2):
+        try:
+            c = roundtrip.clone(g, kind)
+        except Exception as exc:  # every class round-trips on the unchanged tree: an exception here is a library exception
+            ctx.fail("copy-identical-to-original", name, f"raised:{type(exc).__name__}", detail={"kind": kind, "error": str(exc)[:200]})
+            continue
+        ctx.hit("clone:" + kind)
+        diff = None
+        try:
+            if type(c) is not type(g):
+                diff = "type"
+            elif int(c.size) != int(g.size):
+                diff = "size"
+            elif c.domain != g.domain:
+                diff = "domain"
+            elif not (c.points.dtype == g.points.dtype and np.array_equal(c.points, g.points, equal_nan=True)):
+                diff = "nodes"
+            elif not (c.weights.dtype == g.weights.dtype and np.array_equal(c.weights, g.weights, equal_nan=True)):
+                diff = "weights"
+        except Exception as exc:
+            diff = "attribute-access-raised:" + type(exc).__name__
+        ctx.check("copy-identical-to-original", name, diff is None, sig=f"clone-differs:{diff}", detail={"kind": kind, "size": [int(g.size), int(getattr(c, "size", -1))], "domain": [repr(g.domain), repr(getattr(c, "domain", None))]})
+        if diff is None or diff in ("nodes", "weights", "domain"):
+            yield c
 
 
 def _size(ctx, name, g, n):
@@ -528,13 +668,10 @@ def run_case(ctx, family, params):
                 _check_def(ctx, name, g, xr, wr, {"n": n})
             else:  # sine rectangle rule: documented nodes, defining exactness on sine modes, documented series on a node sample
                 xd = qref.documented_nodes(name, n)
-                e, i = _rel(g.points, xd)
-                ctx.check("nodes-as-defined", name, e, TOL_DEF, sig=_dev_sig(g.points, xd), detail={"n": n, "i": i})
-                ctx.check("weights-exact-on-sine-modes", name, qref.sine_rule_exactness(g.points, g.weights), TOL_GRAM, sig="sine-mode", detail={"n": n})
                 idx = sorted(set([1, n] + [int(v) for v in rng.integers(1, n + 1, 6)]))
                 ref = np.array([qref.sine_rule_series_weight(n, i)[1] for i in idx])
-                ew, iw = _rel(np.asarray(g.weights)[[i - 1 for i in idx]], ref)
-                ctx.check("weights-as-documented-series", name, ew, TOL_DEF, sig="series", detail={"n": n, "i": idx[iw] if iw >= 0 else None})
+                for o in _objects(ctx, name, g):
+                    _sine_rule(ctx, name, o, n, xd, idx, ref)
             ctx.hit("decided:" + name)
         return
 
@@ -549,6 +686,8 @@ def run_case(ctx, family, params):
         ctx.case_note("base", base_name)
         with ctx.guard("constructible", name):
             base = B(n)
+            if base_name in USER_ASYMMETRIC and float(np.abs(np.sort(base.points) + np.sort(base.points)[::-1]).max()) > 1e-2:
+                ctx.hit("asymmetric-user-base")  # required hook: the node set really is not symmetric about 0
             if name in TPOLY:
                 d = int(params["d"])
                 g = C(_n(n), B, d) if general else (C(n, d) if n % 2 else C(_n(n), d=d))
@@ -673,3 +812,11 @@ def _incidental(ctx, C, name, n):
         if g.domain == (-1, 1):
             BeckeRTransform(1e-3, 1.5).transform_1d_grid(g)
             LinearFiniteRTransform(0.5, 7.0).transform_1d_grid(g)
+
+
+def _sine_rule(ctx, name, g, n, xd, idx, ref):
+    e, i = _rel(g.points, xd)
+    ctx.check("nodes-as-defined", name, e, TOL_DEF, sig=_dev_sig(g.points, xd), detail={"n": n, "i": i})
+    ctx.check("weights-exact-on-sine-modes", name, qref.sine_rule_exactness(g.points, g.weights), TOL_GRAM, sig="sine-mode", detail={"n": n})
+    ew, iw = _rel(np.asarray(g.weights)[[i - 1 for i in idx]], ref)
+    ctx.check("weights-as-documented-series", name, ew, TOL_DEF, sig="series", detail={"n": n, "i": idx[iw] if iw >= 0 else None})
